@@ -37,6 +37,8 @@ func init() {
 			{ID: "C05-R11", Title: "shared state is enumerated (shared with C09-R18)", Floor: 1, Run: sharedStateIsEnumerated},
 			{ID: "C05-R12", Title: "format arguments have a defined text", Floor: 1, Run: formatArgumentsHaveADefinedText},
 			{ID: "C05-R13", Title: "the compiler does not write into the syntax tree", Floor: 1, Run: theCompilerDoesNotWriteIntoTheSyntaxTree},
+			{ID: "C05-R14", Title: "entries made on the way are withdrawn with their cause", Floor: 2, Run: entriesMadeOnTheWayAreWithdrawnWithTheirCause},
+			{ID: "C05-R15", Title: "hash keys carry the payload itself (shared with C15-R3)", Floor: 3, Run: c15r3},
 		},
 	})
 }
@@ -1382,6 +1384,9 @@ func c05r2(c *core.Ctx) {
 						bad = "os." + o.Name()
 					case path == "runtime" && (o.Name() == "NumGoroutine" || o.Name() == "Stack"):
 						bad = "runtime." + o.Name()
+					case path == "hash/maphash":
+						// seeded per process: what is hashed with it differs from process to process
+						bad = "hash/maphash." + o.Name()
 					}
 					if bad != "" && !(rel == "object" && isTimeObjectFile(p, x)) {
 						n++
